@@ -56,6 +56,30 @@ CLAIMED = {
        "no foreign marker in the first 128 bytes. Raw AAC with a foreign APEv2 trailer is excluded (detected as the generic APEv2File fallback).",
   technique="Lean 4 proof (generic max/permutation lemma + kernel-decided decision table regenerated from source) + score/pick correspondence",
   ref="DESIGN.md §5 C18"),
+ "C20": dict(
+  text="Lean 4 theorems (Props/C20.lean) over a state machine whose handler and block programs are translated from SignalHandler._handler/block "
+       "on every run: tool_run_atomic - for every number of files, every number of operations per file and EVERY signal schedule (any number of "
+       "signals at any positions, Interleave relation) the files updated are a prefix of the file list, each completely, the tool exits with "
+       "SystemExit iff a signal arrived and touches no later file; outside_immediate; inside_deferred; saves_protected - every file-modifying "
+       "call of mid3v2/mid3cp/mid3iconv/moggsplit found in the source lies inside `with _sig.block()` (directly or via its only call sites) and "
+       "every entry_point installs the handler for SIGINT/SIGTERM/SIGHUP. Tie: the real main() in a forked child with the signal delivered at "
+       "every event (before/after each block, each file operation) compared with the model's predicted operations-per-file and exit, plus "
+       "final bytes against the undisturbed run.",
+  note="Trusted: Lean kernel; standard axioms; extract.py's statement translator for SignalHandler and its AST scan of the tools; CPython delivers "
+       "signal handlers between bytecodes of the main thread (assumed, not modelled); a body that itself raises is outside the model.",
+  technique="Lean 4 proof (induction over files and over an interleaving relation of signals) + generated handler semantics + forked-child signal injection",
+  ref="DESIGN.md §5 C20"),
+ "C05": dict(
+  text="Lean 4 theorems (Props/C05.lean): mutagen's MPEG bitrate/sample-rate tables and the WavPack/Musepack/AAC/AC-3 rate tables (regenerated from "
+       "source) equal the published tables; mpeg_header_decodes - for EVERY 32-bit MPEG audio header (all field combinations incl. reserved bits) "
+       "the model decoder yields the ISO version/layer/bitrate/rate/channels/padding and the ISO frame length, and rejects exactly the ISO-invalid "
+       "ones (symbolic bit-packing lemma + kernel-decided 16384-row product); streaminfo_decode_build - FLAC STREAMINFO decodes to its nine fields "
+       "for every value up to the 16/24/20/3/5/36/128-bit limits. Partial: the other formats' header decoders are not yet modelled in Lean; for them "
+       "the property is searched on the real code with spec-derived synthesised headers (field extremes, every rate-table row).",
+  note="Trusted: Lean kernel; standard axioms; extract.py (tables by introspection); the bit-field formulation of StreamInfo.load is tied to the "
+       "code's shift arithmetic by correspondence; floats: durations compared as the same Python expression on the same integers.",
+  technique="Lean 4 proof (bit-packing round trip + decide +kernel over the full header product + table equalities) + header-builder correspondence",
+  ref="DESIGN.md §5 C05"),
 }
 
 PENDING_REASON = "not claimed yet in this revision: the Lean model and theorems for this property are still being built (see DESIGN.md §7 build order); it is not 'not applicable' in principle"
